@@ -83,6 +83,10 @@ type c5mirror struct {
 	next int
 	// coverage
 	presentOps, absentOps, dupOps int
+	// what an insertion relative to an absent id did the first time it was seen on this queue
+	// ("" = not seen yet, "inserted", "ignored"); whatever it is, AddAfter and AddBefore must agree
+	absentInsert   string
+	absentInsertOp string
 }
 
 func c5content(q *queue.TaskQueue) []int {
@@ -257,6 +261,15 @@ func (m *c5mirror) apply(o c5op) (string, string) {
 		}
 		if !eqInts(others, c5refUids(m.ref)) {
 			return "others-changed/" + o.Kind + "/absent-id", fmt.Sprintf("after %s the other tasks changed: got %v want %v", o, others, c5refUids(m.ref))
+		}
+		mode := "ignored"
+		if occ == 1 {
+			mode = "inserted"
+		}
+		if m.absentInsert == "" {
+			m.absentInsert, m.absentInsertOp = mode, o.Kind
+		} else if m.absentInsert != mode {
+			return "absent-id-treated-inconsistently", fmt.Sprintf("%s with an id that is not in the queue: the new task was %s, whereas %s with an absent id had %s it before (queue %v)", o, mode, m.absentInsertOp, m.absentInsert, actual)
 		}
 		// adopt
 		nref := make([]c5item, 0, len(actual))
